@@ -124,6 +124,7 @@ func (a *actor) call(op *Op, fn func(c *CallRec)) *CallRec {
 	c := &CallRec{Task: a.idx, Op: op, InTxn: a.sctx != nil}
 	e.opSeq++
 	c.Inv, c.InvCom, c.InvAt = e.opSeq, len(e.commits), e.sim.Elapsed()
+	e.noteWall()
 	func() {
 		defer func() {
 			if r := recover(); r != nil {
@@ -140,6 +141,7 @@ func (a *actor) call(op *Op, fn func(c *CallRec)) *CallRec {
 	}()
 	e.opSeq++
 	c.Ret, c.RetCom, c.RetAt = e.opSeq, len(e.commits), e.sim.Elapsed()
+	e.noteWall()
 	if !c.InTxn {
 		c.Commits, a.pendingCommits = a.pendingCommits, nil
 	}
@@ -223,6 +225,7 @@ func (a *actor) exec(op *Op) *CallRec {
 		return nil
 	case "clock":
 		// wall clock step (NTP correction, VM resume); timers keep following the monotonic clock
+		e.noteWall()
 		e.sim.SetWallOffset(e.sim.WallOffset() + time.Duration(op.Ms)*time.Millisecond)
 		if op.Ms >= 0 {
 			e.fault("clock-jump")
